@@ -1,5 +1,5 @@
 /-!
-# C17 — `IdleConfig` / `IdleTimer` (qbase/src/time.rs), time = `Nat` (µs of tokio's paused clock)
+# C17 — `IdleConfig` / `IdleTimer` (qbase/src/time.rs), time = `Nat` (ns of tokio's paused clock; `Duration / 2` is exact at ns, the harness advances whole µs)
 
 Transliteration, branch by branch.  Every op carries the clock value `now` at which the (Mutex-protected, hence
 atomic) method runs; `Instant::elapsed()` = `now - t`.  `Duration * u32` overflow (`heartbeat_interval *
@@ -13,7 +13,7 @@ structure Cfg where
   hb : Nat           -- heartbeat_interval
   deriving DecidableEq, Repr, Inhabited
 
-def sec : Nat := 1000000
+def sec : Nat := 1000000000
 
 /-- `IdleConfig::suitable_heartbeat_interval` -/
 def suitableHb (maxIdle : Nat) : Nat :=
